@@ -119,6 +119,9 @@ def units(tier, seed):
         for n in (3, 6):
             us.append({"algo": algo, "n": n, "budget": "eval", "minimize": False, "target": None, "size": size,
                        "step": "default" if algo == "gp" else None, "max_dev": md, "max_execs": me, "user_tracker_second_run": True})
+            for kind in kinds:
+                us.append({"algo": algo, "n": n, "budget": kind, "minimize": False, "target": 2 if kind != "eval" else None, "size": size,
+                           "step": "default" if algo == "gp" else None, "max_dev": md, "max_execs": me, "budget_object_reused": True})
     # fitness values just inside / just outside the 1e-4 tolerance of the target, for small and large targets
     for target in (0.0, 100.0):
         near = [target + 3.0, target + 5e-5, target + 5e-3, target - 2e-4, target - 9e-5]
@@ -156,6 +159,10 @@ def run_unit(unit) -> UnitResult:
             tracker = SingleObjectiveProgressTracker(problem, SequentialEvaluator())
         checks = []
         real, ref = budget_pair(unit["budget"], n, unit["target"], fit_log, minimize)
+        if unit.get("budget_object_reused"):
+            # the same budget object already served a complete search (with its own tracker and problem)
+            p0 = SingleObjectiveProblem(lambda p: 2.0, minimize=minimize)
+            RandomSearch(p0, real, StubRepresentation(2), random=src, tracker=SingleObjectiveProgressTracker(p0, SequentialEvaluator())).search()
         budget = ProxyBudget(real, ref, checks)
         if algo == "gp":
             alg = GeneticProgramming(problem, budget, rep, random=src, tracker=tracker, population_size=size, step=gp_step(unit["step"]))
